@@ -35,9 +35,13 @@ def table_seeds():
     for p in sorted(glob.glob(os.path.join(ROOT, 'seeded', '*', 'meta.json'))):
         m = json.load(open(p))
         n = os.path.basename(os.path.dirname(p))
-        det = m.get('detected_by') or {}
+        dets = m.get('detected_by') or []
+        if isinstance(dets, dict):
+            dets = [dets]
+        outcome = '; '.join('%s: %s' % (d_['check'].split()[1], d_['outcome'].split(' (')[0]) for d_ in dets) or 'not run'
+        detail = next((d_['replay_detail'] for d_ in dets if d_.get('exit_code') == 1 and d_.get('replay_detail')), '')
         rows.append('| %s | %s | %s | %s | %s |' % (n, m.get('property'), (m.get('needs_to_manifest') or '').replace('\n', ' ').replace('|', '\\|')[:260],
-                                                 det.get('outcome', 'not run'), (det.get('replay_detail') or '').replace('|', '\\|')[:200]))
+                                                 outcome, detail.replace('|', '\\|')[:200]))
     return '\n'.join(rows)
 
 
